@@ -148,6 +148,10 @@ def _inputs():
         t[name] = dict(name=name, module=module, attr=modname or name, args=[a1, a2],
                        kwargs=[k1 or {}, k2 or {}], slow=slow, group=group)
 
+    # size regimes: code paths that depend on integer widths switch at sizes such as n**4 > 2**31
+    # (n = 216) - one large sparse signed input per signed routine, with a tiny rewiring budget
+    Sbig = _und(220, 0.02, 31, wmax=3, signed=True)
+    Sbigd = _dir(220, 0.01, 32, wmax=3, signed=True)
     for nm, a1, a2 in [("randmio_und", (U10, 2), (Uw9, 3)), ("randmio_dir", (D8, 2), (Dw9, 3)),
                        ("randmio_und_connected", (U10, 2), (T9, 3)),
                        ("randmio_dir_connected", (D8, 2), (TD9, 3)),
@@ -158,6 +162,10 @@ def _inputs():
                        ("null_model_und_sign", (Fu8, 1, 0.5), (Fu9, 1, 1.0)),
                        ("null_model_dir_sign", (Fd8, 1, 0.5), (Fd9, 1, 1.0))]:
         add(nm, ref, a1, a2, group="rewiring")
+    for nm, big in [("randmio_und_signed", (Sbig, 0.002)), ("randmio_dir_signed", (Sbigd, 0.001)),
+                    ("null_model_und_sign", (Sbig, 0.002, 0.5)), ("null_model_dir_sign", (Sbigd, 0.001, 0.5))]:
+        t[nm]["args"].append(big)
+        t[nm]["kwargs"].append({})
     Dist9 = np.abs(np.arange(9)[:, None] - np.arange(9)[None, :]).astype(float) * 1.5 + 1    # explicit D
     for nm, a1, a2 in [("latmio_und", (U10, 2), (Uw9, 2)), ("latmio_dir", (D8, 2), (Dw9, 2)),
                        ("latmio_und_connected", (T9, 3), (Uw9, 2)),
